@@ -1,5 +1,6 @@
 import ClaripyProofs.Lemmas.Solver.GetSolver
 import ClaripyProofs.Lemmas.Solver.Extrema
+import ClaripyProofs.Lemmas.Solver.Independent
 /-!
 The class `SolverCacheless` = ConcreteHandler, EagerResolution, ConstraintFilter, ConstraintDeduplicator,
 SimplifySkipper over FullFrontend (MRO from the generated file): every public call keeps the invariant `CLInv` and
@@ -8,20 +9,23 @@ answers as the stateless reference demands.  One frontend, untracked, `reuse_z3_
 namespace Claripy.Solver
 open Claripy.Gen.SolverMro
 
-/-- the class seen through `self` inside its own methods (four unrollings below the top) -/
-def clSelf (E : Env) : Ops := stage E (mro .SolverCacheless) 4
+/-- what the methods of this class need from `self` (late binding): eager concrete evaluation and no model hook -/
+structure SelfOk (self : Ops) : Prop where
+  cc : ∀ c, self.concreteCon c = c.conc
+  cv : ∀ e, self.concreteValue e = e.conc
+  mh : self.modelHook = fun _ => pure ()
 
-theorem clSelf_concreteCon (E : Env) (c : Con) : (clSelf E).concreteCon c = c.conc := by
-  simp [clSelf, stage, compose, mro, layerOf, eagerLayer, frontendBase, concreteHandlerLayer, filterLayer, dedupLayer,
+/-- the class seen through `self` inside its own methods (`k + 1` unrollings) -/
+def clStage (E : Env) (k : Nat) : Ops := stage E (mro .SolverCacheless) (k + 1)
+
+theorem clStage_ok (E : Env) (k : Nat) : SelfOk (clStage E k) := by
+  constructor <;> intros <;>
+  simp [clStage, stage, compose, mro, layerOf, eagerLayer, frontendBase, concreteHandlerLayer, filterLayer, dedupLayer,
     skipperLayer, fullLayer, constrainedLayer]
 
-theorem clSelf_concreteValue (E : Env) (e : Exp) : (clSelf E).concreteValue e = e.conc := by
-  simp [clSelf, stage, compose, mro, layerOf, eagerLayer, frontendBase, concreteHandlerLayer, filterLayer, dedupLayer,
-    skipperLayer, fullLayer, constrainedLayer]
+def clSelf (E : Env) : Ops := clStage E 3
 
-theorem clSelf_modelHook (E : Env) : (clSelf E).modelHook = fun _ => pure () := by
-  simp [clSelf, stage, compose, mro, layerOf, eagerLayer, frontendBase, concreteHandlerLayer, filterLayer, dedupLayer,
-    skipperLayer, fullLayer, constrainedLayer]
+theorem classOps_cacheless (E : Env) : classOps E .SolverCacheless = clStage E 4 := rfl
 
 /-- the no-op hook is fine for any frontend predicate -/
 theorem hookOk_noop (A : List ZCon) (P : Frontend → Prop) : HookOk (fun _ => (pure () : M Unit)) A P :=
@@ -29,18 +33,19 @@ theorem hookOk_noop (A : List ZCon) (P : Frontend → Prop) : HookOk (fun _ => (
 
 /-! ### `_constraint_filter` -/
 
-theorem filter_eq (E : Env) (cs : List Con) :
-    constraintFilter (clSelf E) cs =
+theorem filter_eq {self : Ops} (hs : SelfOk self) (cs : List Con) :
+    constraintFilter self cs =
       if cs.isEmpty then .ok cs
       else if cs.any (fun c => c.conc == some false) then .error .unsat
       else .ok (cs.filter fun c => c.conc != some true) := by
-  simp only [constraintFilter, clSelf_concreteCon]
+  obtain ⟨hcc, _, _⟩ := hs
+  simp only [constraintFilter, hcc]
 
-theorem filter_spec (E : Env) (cs : List Con) (wf : ∀ c ∈ cs, ConWf c) :
-    match constraintFilter (clSelf E) cs with
+theorem filter_spec {self : Ops} (hs : SelfOk self) (cs : List Con) (wf : ∀ c ∈ cs, ConWf c) :
+    match constraintFilter self cs with
     | .ok ec => (∀ a, Models ec a ↔ Models cs a) ∧ (∀ c ∈ ec, c ∈ cs)
     | .error e => e = .unsat ∧ ∀ a, ¬ Models cs a := by
-  rw [filter_eq]
+  rw [filter_eq hs]
   by_cases h0 : cs.isEmpty = true
   · simp [h0]
   · simp only [h0, Bool.false_eq_true, ↓reduceIte]
@@ -56,5 +61,114 @@ theorem filter_spec (E : Env) (cs : List Con) (wf : ∀ c ∈ cs, ConWf c) :
       by_cases hct : c.conc = some true
       · exact (wf c hc).2.2.1 true hct a
       · exact h c (List.mem_filter.mpr ⟨hc, by simpa using hct⟩)
+
+
+/-! ### invariant -/
+
+structure CLInv (U : List Con) (s : St) : Prop where
+  core : CoreInv s
+  /-- the constraints held mean what the user's constraints mean -/
+  equiv : ∀ a, holdsAll s.fe.constraints a = holdsAll U a
+
+theorem holdsAll_append (A B : List Con) (a : Asg) : holdsAll (A ++ B) a = (holdsAll A a && holdsAll B a) := by
+  simp [holdsAll, List.all_append]
+
+theorem models_iff_holdsAll (cs : List Con) (a : Asg) : Models cs a ↔ holdsAll cs a = true := by
+  simp [holdsAll, Models, List.all_eq_true]
+
+/-- after `_get_solver` and a balanced L1 query that left the frontend record alone, the invariant holds again -/
+theorem coreInv_after_query {s s1 s2 : St} {r : Nat} (h : CoreInv s) (hg : GotSolver s s1 r)
+    (hst : L1Step r (fun fe => fe = s1.fe) s1 s2) (hfr : (objAt s2 r).frames = (objAt s1 r).frames) :
+    CoreInv s2 ∧ s2.fe.constraints = s.fe.constraints := by
+  have hfe : s2.fe = s1.fe := hst.fe rfl
+  have hfe1 := hg.fe
+  have hcons : s2.fe.constraints = s.fe.constraints := by rw [hfe, hfe1]
+  refine ⟨⟨?_, ?_, ?_, ?_⟩, hcons⟩
+  · intro a _; rw [hfe, hfe1]; rfl
+  · intro r' hr'
+    rw [hfe, hfe1] at hr'
+    simp only [Option.some.injEq] at hr'
+    subst hr'
+    obtain ⟨f, hf⟩ := hg.frames
+    refine ⟨by rw [hst.len]; exact hg.lt, ⟨f, by rw [hfr, hf]⟩, fun a => ?_⟩
+    have has : (objAt s2 r).asserted = (objAt s1 r).asserted := by simp only [Z3Obj.asserted, hfr]
+    rw [has, hcons, hfe, hfe1]
+    simp only [holdsAll_nil, and_true]
+    exact hg.asserted a
+  · rw [hst.reuse, hg.reuse]; exact h.noReuse
+  · rw [hfe, hfe1]; exact h.untracked
+
+theorem clInv_after_query {U : List Con} {s s1 s2 : St} {r : Nat} (h : CLInv U s) (hg : GotSolver s s1 r)
+    (hst : L1Step r (fun fe => fe = s1.fe) s1 s2) (hfr : (objAt s2 r).frames = (objAt s1 r).frames) : CLInv U s2 := by
+  obtain ⟨hc, hcons⟩ := coreInv_after_query h.core hg hst hfr
+  exact ⟨hc, fun a => by rw [hcons]; exact h.equiv a⟩
+
+/-- what the Z3 object asserts together with converted extra constraints, in terms of the user's constraints -/
+theorem satBy_query {U : List Con} {s s1 : St} {r : Nat} (h : CLInv U s) (hg : GotSolver s s1 r) (ec : List Con) (a : Asg) :
+    SatBy ((objAt s1 r).asserted ++ ec.map ZCon.ofCon) a ↔ Models (U ++ ec) a := by
+  rw [SatBy.append, hg.asserted a, satBy_ofCon, models_append, models_iff_holdsAll, models_iff_holdsAll, h.equiv a]
+
+/-! ### `satisfiable` -/
+
+/-- ConstraintFilterMixin.satisfiable over FullFrontend.satisfiable, for any `self` -/
+def clSat (E : Env) (self : Ops) (extra : List Con) : M Bool :=
+  M.tryCatch (do let ec ← liftE (constraintFilter self extra)
+                 let r ← getSolver
+                 z3Satisfiable E r (ec.map ZCon.ofCon) self.modelHook) (· == .unsat) (pure false)
+
+theorem clStage_satisfiable (E : Env) (k : Nat) : (clStage E (k + 1)).satisfiable = clSat E (clStage E k) := rfl
+
+theorem clSat_spec {E : Env} (hE : OracleExact E) {self : Ops} (hs : SelfOk self) (U : List Con) (s : St) (h : CLInv U s)
+    (extra : List Con) (wf : ∀ c ∈ extra, ConWf c) :
+    match clSat E self extra s with
+    | (.ok b, s') => (b = true ↔ Satisfiable (U ++ extra)) ∧ CLInv U s'
+    | (.error e, s') => IsGiveUp E e ∧ CLInv U s' := by
+  unfold clSat
+  have hmh : self.modelHook = fun _ => pure () := by obtain ⟨_, _, h3⟩ := hs; exact h3
+  rw [hmh]
+  have hfs := filter_spec hs extra wf
+  simp only [M.tryCatch, bind, M.bind, liftE]
+  cases hf : constraintFilter self extra with
+  | error e =>
+    rw [hf] at hfs
+    obtain ⟨he, hun⟩ := hfs
+    subst he
+    simp only [beq_self_eq_true, ↓reduceIte, pure, M.pure]
+    refine ⟨⟨fun hb => by simp at hb, fun ⟨a, ha⟩ => absurd (models_append.mp ha).2 (hun a)⟩, h⟩
+  | ok ec =>
+    rw [hf] at hfs
+    obtain ⟨hequiv, _⟩ := hfs
+    simp only
+    have hgs := getSolver_spec s h.core
+    rcases hg : getSolver s with ⟨res, s1⟩
+    rw [hg] at hgs
+    cases res with
+    | error e => exact absurd hgs id
+    | ok r =>
+      simp only
+      have hsp := z3Satisfiable_spec hE (hookOk_noop [] (fun fe => fe = s1.fe)) r (ec.map ZCon.ofCon) s1 (by simp)
+      rcases hz : z3Satisfiable E r (ec.map ZCon.ofCon) (fun _ => pure ()) s1 with ⟨res2, s2⟩
+      rw [hz] at hsp
+      cases res2 with
+      | error e =>
+        obtain ⟨he, hst, hfr⟩ := hsp
+        have hne : (e == Err.unsat) = false := by
+          obtain ⟨he1, _⟩ := he; subst he1; rfl
+        simp only [hne, Bool.false_eq_true, ↓reduceIte]
+        exact ⟨he, clInv_after_query h hgs hst hfr⟩
+      | ok b =>
+        obtain ⟨hb, hst, hfr⟩ := hsp
+        refine ⟨?_, clInv_after_query h hgs hst hfr⟩
+        rw [hb]
+        constructor
+        · rintro ⟨a, ha⟩
+          exact ⟨a, by
+            have := (satBy_query h hgs ec a).mp ha
+            rw [models_append] at this ⊢
+            exact ⟨this.1, (hequiv a).mp this.2⟩⟩
+        · rintro ⟨a, ha⟩
+          refine ⟨a, (satBy_query h hgs ec a).mpr ?_⟩
+          rw [models_append] at ha ⊢
+          exact ⟨ha.1, (hequiv a).mpr ha.2⟩
 
 end Claripy.Solver
